@@ -163,3 +163,201 @@ Section Rank.
   Lemma static_sort_ok : exists sorted order, sort_rule_references S = Ok (sorted, order).
   Proof. apply (sort_rule_references_complete S rank static_refs_closed rank_edge). Qed.
 End Rank.
+
+(* ---- provenance of the nodes of the flattened tree ------------------------------------------------------------------ *)
+Lemma vin_of_inv v t vs : vin v t (vlist_of vs) -> In (v, t) vs.
+Proof.
+  induction vs as [|[x y] r IH]; cbn; intros H; inversion H; subst; [left; reflexivity | right; apply IH; assumption].
+Qed.
+
+Lemma gen_tree_ended_sub : forall fuel depth ctx prev t, gen_tree fuel depth ctx prev = Ok t ->
+  forall t', subtree t' t -> forall rc, In rc (t_ended t') -> In rc ctx.
+Proof.
+  induction fuel as [|f IH]; intros depth ctx prev t Hgen t' Hst rc Hrc; [discriminate|].
+  cbn [gen_tree] in Hgen.
+  destruct (rmap _ (v_moves depth (going_on depth ctx))) as [vs|] eqn:Ev; [|discriminate]. cbn [bind] in Hgen.
+  destruct (rmap _ (p_keys (p_moves depth prev (going_on depth ctx)))) as [ps|] eqn:Ep; [|discriminate]. cbn [bind] in Hgen.
+  inversion Hgen; subst t. clear Hgen. apply rmap_forall2 in Ev, Ep.
+  inversion Hst as [|ended vs0 ps0 v child Hv Hst'|ended vs0 ps0 tag cs child Hp Hst']; subst.
+  - cbn [t_ended] in Hrc. apply ended_at_in in Hrc. tauto.
+  - apply vin_of_inv in Hv. destruct (forall2_in_r _ _ _ _ Ev Hv) as (v' & _ & Hf). cbn beta in Hf.
+    destruct (gen_tree f (S depth) (v_group depth (going_on depth ctx) v') prev) as [ch|] eqn:Eg; [|discriminate].
+    cbn [bind] in Hf. inversion Hf; subst v' ch.
+    pose proof (IH _ _ _ _ Eg t' Hst' rc Hrc) as Hin. apply v_group_in in Hin. destruct Hin as [Hin _]. apply going_on_in in Hin. tauto.
+  - apply pin_of in Hp. destruct (forall2_in_r _ _ _ _ Ep Hp) as (key & _ & Hf). cbn beta in Hf.
+    destruct (p_group (p_moves depth prev (going_on depth ctx)) key) as [|pm0 grest] eqn:Egrp; [discriminate|].
+    destruct (gen_tree f (S depth) (map snd (pm0 :: grest)) (fst (fst (fst pm0)) :: prev)) as [ch|] eqn:Eg; [|discriminate].
+    cbn [bind] in Hf. inversion Hf; subst tag cs ch.
+    pose proof (IH _ _ _ _ Eg t' Hst' rc Hrc) as Hin. apply in_map_iff in Hin. destruct Hin as (pm & <- & Hpm). rewrite <- Egrp in Hpm.
+    apply p_group_in in Hpm. destruct Hpm as [Hpm _]. apply p_moves_in in Hpm. destruct Hpm as (rc1 & t1 & Hr1 & _ & ->). cbn.
+    apply going_on_in in Hr1. tauto.
+Qed.
+
+Definition node_of (g : gnode) (t' : ptree) : Prop :=
+  g_rule g = map ch_id (t_ended t') /\ g_sign g = flat_map ch_sign (t_ended t').
+
+Lemma flatten_nodes :
+  (forall t parent id tti g, In g (fst (flatten t parent id tti)) -> exists t', subtree t' t /\ node_of g t') /\
+  (forall vs src nid tti g, In g (snd (fst (fst (flatten_vs vs src nid tti)))) ->
+      exists v child t', vin v child vs /\ subtree t' child /\ node_of g t') /\
+  (forall ps src nid tti g, In g (snd (fst (fst (flatten_ps ps src nid tti)))) ->
+      exists tag cs child t', pin tag cs child ps /\ subtree t' child /\ node_of g t').
+Proof.
+  apply ptree_mutind.
+  - intros ended vs IHv ps IHp parent id tti g Hin. cbn [flatten] in Hin.
+    destruct (flatten_vs vs id (S id) tti) as [[[ves sub1] nid1] tti1] eqn:Ev.
+    destruct (flatten_ps ps id nid1 tti1) as [[[pes sub2] nid2] tti2] eqn:Ep. cbn [fst] in Hin.
+    destruct Hin as [<-|Hin].
+    + exists (PNode ended vs ps). split; [apply st_refl|]. split; reflexivity.
+    + apply in_app_or in Hin. destruct Hin as [Hin|Hin].
+      * specialize (IHv id (S id) tti g). rewrite Ev in IHv. destruct (IHv Hin) as (v & child & t' & H1 & H2 & H3).
+        exists t'. split; [eapply st_v; eauto | exact H3].
+      * specialize (IHp id nid1 tti1 g). rewrite Ep in IHp. destruct (IHp Hin) as (tag & cs & child & t' & H1 & H2 & H3).
+        exists t'. split; [eapply st_p; eauto | exact H3].
+  - intros src nid tti g []. 
+  - intros v t IHt r IHr src nid tti g Hin. cbn [flatten_vs] in Hin.
+    destruct (flatten t (Some (N.of_nat src)) nid tti) as [sub tti1] eqn:Et.
+    destruct (flatten_vs r src (nid + length sub) tti1) as [[[es subs] nid'] tti2] eqn:Er. cbn [fst snd] in Hin.
+    apply in_app_or in Hin. destruct Hin as [Hin|Hin].
+    + specialize (IHt (Some (N.of_nat src)) nid tti g). rewrite Et in IHt. destruct (IHt Hin) as (t' & H1 & H2).
+      exists v, t, t'. split; [constructor | auto].
+    + specialize (IHr src (nid + length sub)%nat tti1 g). rewrite Er in IHr. destruct (IHr Hin) as (v' & child & t' & H1 & H2 & H3).
+      exists v', child, t'. split; [constructor; exact H1 | auto].
+  - intros src nid tti g [].
+  - intros tag cs t IHt r IHr src nid tti g Hin. cbn [flatten_ps] in Hin.
+    destruct (if (0 <=? tag)%Z then (Z.to_N tag, tti) else (tti + 1, tti + 1)) as [etag tti0].
+    destruct (flatten t (Some (N.of_nat src)) nid tti0) as [sub tti1] eqn:Et.
+    destruct (flatten_ps r src (nid + length sub) tti1) as [[[es subs] nid'] tti2] eqn:Er. cbn [fst snd] in Hin.
+    apply in_app_or in Hin. destruct Hin as [Hin|Hin].
+    + specialize (IHt (Some (N.of_nat src)) nid tti0 g). rewrite Et in IHt. destruct (IHt Hin) as (t' & H1 & H2).
+      exists tag, cs, t, t'. split; [constructor | auto].
+    + specialize (IHr src (nid + length sub)%nat tti1 g). rewrite Er in IHr. destruct (IHr Hin) as (tag' & cs' & child & t' & H1 & H2 & H3).
+      exists tag', cs', child, t'. split; [constructor; exact H1 | auto].
+Qed.
+
+(* ---- resolution keeps literals and function identifiers ------------------------------------------------------------- *)
+Lemma resolve_arg_wf named a na : resolve_arg named a = Ok na -> arg_wf a = true -> arg_ok na = true.
+Proof.
+  destruct a as [c|p]; cbn; [intros H; inversion H; subst; auto|].
+  destruct (is_temp_pat p); [discriminate|]. destruct (resolve_named named p); cbn; [|discriminate]. intros H; inversion H; subst. reflexivity.
+Qed.
+
+Lemma resolve_opt_wf named o no : resolve_opt named o = Ok no -> opt_wf o = true -> opt_ok no = true.
+Proof.
+  destruct o as [c|p|f args]; cbn [resolve_opt opt_wf].
+  - intros H; inversion H; subst. auto.
+  - destruct (is_temp_pat p); [discriminate|]. destruct (resolve_named named p); cbn; [|discriminate]. intros H; inversion H; subst. reflexivity.
+  - destruct (rmap (resolve_arg named) args) as [l|] eqn:E; cbn; [|discriminate]. intros H; inversion H; subst.
+    rewrite andb_true_iff. intros [Hf Ha]. cbn. rewrite Hf. cbn. apply rmap_forall2 in E.
+    rewrite forallb_forall in Ha. apply forallb_forall. intros na Hna. destruct (forall2_in_r _ _ _ _ E Hna) as (a & Ha' & Hr).
+    eapply resolve_arg_wf; eauto.
+Qed.
+
+Lemma resolve_cons_wf named tp tc nc : resolve_cons named tp tc = Ok nc -> forallb opt_wf (tc_opts tc) = true -> Spec.LvsChains.cons_ok nc = true.
+Proof.
+  unfold resolve_cons. destruct (if is_temp_pat (tc_pat tc) then _ else _) as [pat|]; cbn [bind]; [|discriminate].
+  destruct (rmap (resolve_opt named) (tc_opts tc)) as [opts|] eqn:E; cbn [bind]; [|discriminate]. intros H; inversion H; subst.
+  intros Hw. unfold Spec.LvsChains.cons_ok. cbn. apply rmap_forall2 in E. rewrite forallb_forall in Hw. apply forallb_forall.
+  intros no Hno. destruct (forall2_in_r _ _ _ _ E Hno) as (o & Ho & Hr). eapply resolve_opt_wf; eauto.
+Qed.
+
+Lemma forall2_in_r2 {A B} (R : A -> B -> Prop) l l' y : Forall2 R l l' -> In y l' -> exists x, In x l /\ R x y.
+Proof. apply forall2_in_r. Qed.
+
+(* ---- the theorem ------------------------------------------------------------------------------------------------------- *)
+Theorem compile_accepts S : static_ok S = true -> schema_wf S = true ->
+  exists chains st m, chains_of S = Ok (chains, st) /\ compile S = Ok m /\ chains_ok (N.of_nat (length (ns_named st))) chains.
+Proof.
+  intros Hstatic Hwf.
+  destruct (static_parts S Hstatic) as (Hrefs & Hdepth & Hcons & Hsigners).
+  destruct (static_sort_ok S Hstatic) as (sorted & order & Es).
+  pose proof (sort_rule_references_spec S) as Hs. rewrite Es in Hs.
+  destruct Hs as (Hcl & Hnd & Hino & _ & Hsin & Hafter & _).
+  pose proof (sorted_bodies _ _ _ Es) as Hb.
+  (* numbering *)
+  pose proof (gen_pattern_numbers_spec sorted) as Hn. pose proof (gen_pattern_numbers_rel sorted) as Hrel.
+  destruct (gen_pattern_numbers sorted) as [[nrules st]|e2] eqn:En.
+  2:{ exfalso. destruct Hn as [_ (r & cs & tc & Hr & Hcs & Htc & Hbad)]. apply Hbad.
+      destruct (proj2 Hb r Hr) as (d & Hd & Hsame). destruct Hsame as (Hn1 & Hc1 & Hs1) eqn:Esame.
+      apply (cons_ok_src S sorted d r tc Hb (conj Hn1 (conj Hc1 Hs1))). apply (Hcons d cs tc Hd); [rewrite <- Hc1; exact Hcs | exact Htc]. }
+  specialize (Hrel nrules st eq_refl). destruct Hn as (HI & Hnamed & _ & _).
+  (* replication *)
+  destruct (replicate_rules_ok nrules (ns_next_temp st) (refs_earlier_of _ _ _ Hrel Hafter) (ni_temp _ HI)) as (rep & Erep & Hrep & Hkeys).
+  set (chains := concat (map snd (sort_by_key rep))).
+  assert (Echains : chains_of S = Ok (chains, st)).
+  { unfold chains_of. rewrite Es. cbn [bind fst]. rewrite En. cbn [bind]. rewrite Erep. reflexivity. }
+  assert (Hfrom : forall rc, In rc chains -> chain_from nrules rc).
+  { intros rc Hrc. unfold chains in Hrc. apply in_concat in Hrc. destruct Hrc as (chs & Hchs & Hin). apply in_map_iff in Hchs.
+    destruct Hchs as ([id chs'] & <- & Hp). apply (proj1 (in_sort_by_key rep (id, chs'))) in Hp. destruct (Hrep id chs' Hp) as [_ Hall].
+    rewrite Forall_forall in Hall. apply Hall, Hin. }
+  assert (Hhas : forall nr, In nr nrules -> exists rc, In rc chains /\ ch_id rc = nr_id nr).
+  { intros nr Hnr. destruct (Hkeys nr Hnr) as (chs & Hg). apply al_get_in_pair in Hg. destruct (Hrep _ _ Hg) as [Hne Hall].
+    destruct chs as [|rc chs]; [contradiction|]. inversion Hall as [|? ? [_ Hid] _]; subst. exists rc. split; [|exact Hid].
+    unfold chains. apply in_concat. exists (rc :: chs). split; [|left; reflexivity]. apply in_map_iff. exists (nr_id nr, rc :: chs).
+    split; [reflexivity | apply (proj2 (in_sort_by_key rep _)); exact Hg]. }
+  (* source rule behind a numbered rule *)
+  assert (Hsrc : forall nr, In nr nrules -> exists r d, In r sorted /\ nrule_rel (ns_named st) r nr /\ In d S /\ same_body d r).
+  { intros nr Hnr. destruct (forall2_in_r _ _ _ _ Hrel Hnr) as (r & Hr & Hrl). destruct (proj2 Hb r Hr) as (d & Hd & Hsame). eauto 8. }
+  assert (Hrwf : forall d, In d S -> rule_wf d = true) by (unfold schema_wf in Hwf; rewrite forallb_forall in Hwf; exact Hwf).
+  (* chains_ok *)
+  assert (Hok : chains_ok (N.of_nat (length (ns_named st))) chains).
+  { constructor.
+    - apply keys_faithful_of. intros rc Hrc. destruct (Hfrom rc Hrc) as (_ & Hcf & _).
+      unfold chain_keys_ok. apply forallb_forall. intros c Hc. rewrite Forall_forall in Hcf.
+      destruct (Hcf c Hc) as (nr & cs & c0 & Hnr & Hcs & Hc0 & Hopts).
+      destruct (Hsrc nr Hnr) as (r & d & Hr & (_ & _ & _ & _ & Hcr) & Hd & (_ & Hcd & _)).
+      destruct (forall2_in_r _ _ _ _ Hcr Hcs) as (scs & Hscs & Hf2). destruct (forall2_in_r _ _ _ _ Hf2 Hc0) as (tc & Htc & (tp & Hres)).
+      pose proof (resolve_cons_wf _ _ _ _ Hres) as Hw. unfold Spec.LvsChains.cons_ok in *. rewrite Hopts. apply Hw.
+      specialize (Hrwf d Hd). unfold rule_wf in Hrwf. apply andb_true_iff in Hrwf. destruct Hrwf as [_ Hrc2].
+      rewrite forallb_forall in Hrc2. rewrite Hcd in Hscs. specialize (Hrc2 scs Hscs). rewrite forallb_forall in Hrc2. apply Hrc2, Htc.
+    - intros rc v Hrc Hv. destruct (Hfrom rc Hrc) as (Hnf & _). rewrite Forall_forall in Hnf. specialize (Hnf _ Hv). cbn in Hnf.
+      destruct Hnf as (nr & Hnr & Hvn). destruct (Hsrc nr Hnr) as (r & d & Hr & (_ & _ & Hshape & _) & Hd & (Hnd' & _)).
+      destruct (forall2_in_r _ _ _ _ Hshape Hvn) as (c & Hc & Hcs). destruct c as [v'|p|r0]; cbn in Hcs; try contradiction. subst v'.
+      specialize (Hrwf d Hd). unfold rule_wf in Hrwf. apply andb_true_iff in Hrwf. destruct Hrwf as [Hrn _].
+      rewrite forallb_forall in Hrn. rewrite Hnd' in Hc. specialize (Hrn _ Hc). cbn in Hrn. destruct v; [discriminate | discriminate].
+    - intros rc c f args Hrc Hc Ho. destruct (Hfrom rc Hrc) as (_ & Hcf & _). rewrite Forall_forall in Hcf.
+      destruct (Hcf c Hc) as (nr & cs & c0 & Hnr & Hcs & Hc0 & Hopts).
+      destruct (Hsrc nr Hnr) as (r & d & Hr & (_ & _ & _ & _ & Hcr) & Hd & (_ & Hcd & _)).
+      destruct (forall2_in_r _ _ _ _ Hcr Hcs) as (scs & Hscs & Hf2). destruct (forall2_in_r _ _ _ _ Hf2 Hc0) as (tc & Htc & (tp & Hres)).
+      assert (Hw : Spec.LvsChains.cons_ok c0 = true).
+      { eapply resolve_cons_wf; eauto. specialize (Hrwf d Hd). unfold rule_wf in Hrwf. apply andb_true_iff in Hrwf. destruct Hrwf as [_ Hrc2].
+        rewrite forallb_forall in Hrc2. rewrite Hcd in Hscs. specialize (Hrc2 scs Hscs). rewrite forallb_forall in Hrc2. apply Hrc2, Htc. }
+      unfold Spec.LvsChains.cons_ok in Hw. rewrite forallb_forall in Hw. rewrite Hopts in Ho. specialize (Hw _ Ho). cbn in Hw.
+      apply andb_true_iff in Hw. destruct Hw as [Hf _]. destruct (fid_ok_spec f Hf) as (r1 & -> & _). discriminate.
+    - intros rc t Hrc Ht Hpos. destruct (Hfrom rc Hrc) as (Hnf & _). rewrite Forall_forall in Hnf. specialize (Hnf _ Ht). cbn in Hnf.
+      destruct Hnf as [Hneg|(nr & Hnr & Htn)]; [lia|].
+      destruct (Hsrc nr Hnr) as (r & d & Hr & (_ & _ & _ & Htags & _) & _).
+      rewrite Forall_forall in Htags. specialize (Htags _ Htn). cbn in Htags. destruct Htags as [Hneg|(p & Hp & _)]; [lia|].
+      apply (ni_range _ HI) in Hp. lia. }
+  (* the tree, the pool, the signers *)
+  destruct (gen_tree_ok (Datatypes.S (max_chain_len chains)) 0 chains []) as (t & Et); [lia | |].
+  { intros rc Hrc. pose proof (max_chain_len_ge _ _ Hrc). lia. }
+  set (npc := N.of_nat (length (ns_named st))) in *.
+  set (pool := fst (flatten t None O npc)).
+  assert (Hroot : realizes npc pool t O None).
+  { unfold pool. destruct (flatten t None O npc) as [sub tti'] eqn:Ef. cbn [fst].
+    destruct (proj1 (flatten_realizes npc) t [] [] None npc sub tti' Ef (N.le_refl _)) as (Hr & _).
+    cbn [app length] in Hr. rewrite app_nil_r in Hr. exact Hr. }
+  assert (Hnorefs : forall rc, In rc chains -> no_refs rc).
+  { intros rc Hrc r0 Hin. destruct (Hfrom rc Hrc) as (Hnf & _). rewrite Forall_forall in Hnf. apply (Hnf _ Hin). }
+  assert (Hidkey : forall rc, In rc chains -> exists l, al_get ident_eqb (rids_of pool) (ch_id rc) = Some l).
+  { intros rc Hrc. destruct (gen_tree_covers _ _ _ _ _ Et rc Hrc (Nat.le_0_l _) (Hnorefs rc Hrc)) as (t' & Hst & Hend).
+    destruct (realizes_subtree npc pool _ _ Hst _ _ Hroot) as (k & p' & Hrz).
+    inversion Hrz as [? ? ? ? ? g Hg Hpar Hru Hsi _ _]; subst.
+    assert (Hex : exists l, al_get ident_eqb (rids_of pool) (ch_id rc) = Some l /\ In (N.of_nat k) l).
+    { apply rids_of_in. exists k, g. repeat split; auto. rewrite Hru. apply in_map. exact Hend. }
+    destruct Hex as (l & Hl & _). eauto. }
+  destruct (fix_all_ok (rids_of pool) pool O) as (nodes & Enodes).
+  { intros g k Hg Hk. destruct (proj1 flatten_nodes t None O npc g Hg) as (t' & Hst & (_ & Hsg)).
+    rewrite Hsg in Hk. apply in_flat_map in Hk. destruct Hk as (rc & Hrc & Hkrc).
+    pose proof (gen_tree_ended_sub _ _ _ _ _ Et t' Hst rc Hrc) as Hrcc.
+    destruct (Hfrom rc Hrcc) as (_ & _ & (nr & Hnr & _ & Hsign)). rewrite Hsign in Hkrc. apply in_isort in Hkrc.
+    destruct (Hsrc nr Hnr) as (r & d & Hr & (_ & Hsg2 & _) & Hd & (_ & _ & Hsd)).
+    assert (Hkd : In k (r_sign d)) by (rewrite <- Hsd, <- Hsg2; exact Hkrc).
+    pose proof (Hsigners d k Hd Hkd) as Hdef. apply ref_ok_defined in Hdef. destruct Hdef as [Hkids _].
+    apply (proj1 (in_dedup _ ident_eqb_eq _ _)) in Hkids. apply in_map_iff in Hkids. destruct Hkids as (rk & Hidk & Hrk).
+    apply Hsin in Hrk. destruct (forall2_in_l _ _ _ _ Hrel Hrk) as (nrk & Hnrk & (Hidnrk & _)).
+    destruct (Hhas nrk Hnrk) as (rck & Hrck & Hidrck). destruct (Hidkey rck Hrck) as (l & Hl). exists l. rewrite <- Hidk, <- Hidnrk, <- Hidrck. exact Hl. }
+  eexists chains, st, _. split; [exact Echains|]. split; [|exact Hok].
+  unfold compile. rewrite Echains. cbn [bind]. rewrite Et. cbn [bind]. fold npc. fold pool. unfold model_of. rewrite Enodes. cbn [bind]. reflexivity.
+Qed.
